@@ -572,7 +572,7 @@ func TestVerif_C23_PickDone(t *testing.T) {
 	const P = "C23"
 	r := vk.Start(t, "c23_pickdone", "exploration", P)
 	defer r.Finish()
-	maxPrelude := r.Pick(2, 3)
+	maxPrelude := r.Pick(2, 4)
 	r.Rule(P, fmt.Sprintf("every history = {fail-fast, wait-for-ready} x every sequence (length <= %d) of blocking picker behaviours met while the RPC is blocked in pick "+
 		"(no picker yet [first only], ErrNoSubConnAvailable, non-READY SubConn with Done, plain error [wait-for-ready only]) x terminal event "+
 		"(status-error picker, plain-error picker [fail-fast], ctx cancel, deadline, or READY SubConn with Done followed by one of %d wire outcomes: %s) x {Invoke, NewStream/SendMsg/CloseSend/RecvMsg}; "+
